@@ -251,15 +251,32 @@ func Param(i int) *Term { return &Term{Op: OParam, N: i} }
 func Field(base *Term, f *types.Var) *Term { return &Term{Op: OField, Obj: f, Args: []*Term{base}} }
 
 func Call(fn *types.Func, args ...*Term) *Term {
-	t := &Term{Op: OCall, Obj: fn, Args: args}
-	// math.Min / math.Max are symmetric
+	// math.Min / math.Max have one canonical form, shared with the builtin min / max on floats when one operand
+	// is a finite constant (see Builder.call)
 	if fn != nil && fn.Pkg() != nil && fn.Pkg().Path() == "math" && (fn.Name() == "Min" || fn.Name() == "Max") && len(args) == 2 {
-		if args[0].Key() > args[1].Key() {
-			t.Args = []*Term{args[1], args[0]}
-		}
+		return FMinMax(fn.Name() == "Min", args[0], args[1])
 	}
-	return t
+	// errs.Is is errors.Is (github.com/goark/errs: func Is(err, target error) bool { return errors.Is(err, target) })
+	if fn != nil && fn.Pkg() != nil && fn.Name() == "Is" && len(args) == 2 && (fn.Pkg().Path() == "errors" || fn.Pkg().Path() == "github.com/goark/errs") {
+		return &Term{Op: OBuiltin, Str: "errors.Is", Args: args}
+	}
+	return &Term{Op: OCall, Obj: fn, Args: args}
 }
+
+// FMinMax is the minimum / maximum of two float64 terms (symmetric: operands are ordered canonically).
+func FMinMax(min bool, a, b *Term) *Term {
+	name := "math.Max"
+	if min {
+		name = "math.Min"
+	}
+	if a.Key() > b.Key() {
+		a, b = b, a
+	}
+	return &Term{Op: OBuiltin, Str: name, Args: []*Term{a, b}}
+}
+
+// IsFMin reports whether t is the minimum of two float terms.
+func IsFMin(t *Term) bool { return t.Op == OBuiltin && t.Str == "math.Min" && len(t.Args) == 2 }
 
 func isFloatConst(t *Term) (float64, bool) {
 	if t.Op != OConst || t.C == nil {
